@@ -17,6 +17,8 @@ KINDS = {
     "gcases": ("net/http Response.Write (modelled) behind the real flush writer", "-"),
     "ecases": ("end to end through forwarder.NewHTTPProxy: bytes at the raw client", "client parser consumes exactly the k-th response; body/headers/trailers intact"),
     "tcases": ("end to end delivery times", "event/chunk visible before the origin sends the next byte"),
+    "xcases": ("- (http.Handler variant of the proxy, oracle only)", "client parser consumes exactly the k-th response; body/headers/trailers intact"),
+    "ycases": ("-", "-"),
 }
 
 
@@ -50,10 +52,12 @@ def classify(kind, case):
         return "flush-not-at-pattern-boundary"
     if kind == "scases":
         return "header-only-classification"
-    if kind in ("ecases", "tcases"):
+    if kind == "xcases" and case.get("only304ct"):
+        return "handler-304-content-type-dropped"
+    if kind in ("ecases", "tcases", "xcases"):
         cls = c.get("Class", kind)
         if cls != "generated":
-            return cls
+            return ("handler:" if kind == "xcases" else "") + cls
         # the exchange that was not answered completely / correctly: the first one not done, else the last one
         ex = c.get("Exchs", [])
         done = case.get("done", len(ex))
@@ -66,7 +70,7 @@ def classify(kind, case):
             return "http10-client-chunked-origin"
         if rs.get("Gzip") and "gzip" not in rq.get("AcceptE", ""):
             return "gzip-solicited-by-proxy"
-        return "e2e:%s/%s/%s/%s" % (rq["Method"], rq["Proto"], rs["Framing"], rs["Code"])
+        return "%s:%s/%s/%s/%s" % ("handler-e2e" if kind == "xcases" else "e2e", rq["Method"], rq["Proto"], rs["Framing"], rs["Code"])
     return kind
 
 
@@ -129,6 +133,13 @@ def run(ctx):
                         case = src[base + i] if base + i < len(src) else {"index": base + i}
                         acc.append((kind, case))
 
+    # http.Handler variant: a failure that disappears when Content-Type on 304 replies is not expected
+    # (ycases = the same connections, relaxed) is Go's http.Server dropping that field, a known finding
+    relaxed_bad = set(json.dumps(c, sort_keys=True) for k, c in prop_bad if k == "ycases")
+    prop_bad = [(k, c) for k, c in prop_bad if k != "ycases"]
+    prop_bad = [(k, dict(c, only304ct=True)) if k == "xcases" and json.dumps(c, sort_keys=True) not in relaxed_bad else (k, c)
+                for k, c in prop_bad]
+
     def smallest(cases):
         return min(cases, key=lambda kc: len(json.dumps(kc[1])))
 
@@ -159,13 +170,29 @@ def run(ctx):
     elif ob_failed:
         ctx.notes.append({"unchecked_obligations": ob_failed})
 
+    # thorough: independent re-check of the compiled development with coqchk
+    coqchk = None
+    if ctx.tier == "thorough" and not ctx.replay:
+        g = os.path.join(common.VERIF, "coq", GROUP)
+        rc, out = common.sh(["coqchk", "-silent", "-o", "-Q", os.path.join(common.VERIF, "coq", "lib"), "FwdLib",
+                             "-Q", g, "G02", "G02.C02"], cwd=g, timeout=1500)
+        flat = " ".join(out.split())
+        m = re.search(r"\* Axioms: (.*?) \* Constants", flat)
+        coqchk = {"rc": rc, "axioms": m.group(1).strip() if m else None}
+        ctx.log("coqchk:", coqchk)
+        if rc != 0 or not m or m.group(1).strip() != "<none>":
+            ob_failed.append("coqchk did not confirm the development: rc=%s %s" % (rc, flat[-400:]))
+            if not ctx.violations and not ctx.known_hits:
+                ctx.violation("obligation-unchecked", dict(unchecked=ob_failed), False, ob_failed[-1][:400])
+
     counts = meta.get("counts", {})
     evaluations = sum(int(v) for v in counts.values())
     coverage = {
         "obligations": len(info["theorems"]),
         "discharged": len(info["discharged"]),
-        "checker_cmd": "make -j16 (coq_makefile, full .vo) in coq/lib and coq/g02; coqc C02.v; coqc on %d cases shards (vm_compute)"
-                       % len(meta.get("shards", [])),
+        "checker_cmd": "make -j16 (coq_makefile, full .vo) in coq/lib and coq/g02; coqc C02.v; coqc on %d cases shards (vm_compute)%s"
+                       % (len(meta.get("shards", [])), "; coqchk -silent -o G02.C02" if coqchk else ""),
+        "coqchk": coqchk,
         "trusted_base": common.standard_trusted_base([
             "Print Assumptions per theorem: %s" % json.dumps(info["assumptions"]),
             "modelled, not verified (Go standard library, transcribed by hand in RespFraming.v and validated by the gcases/ecases "
